@@ -343,6 +343,14 @@ func wktSets() []*Set {
 	c.addMap("attrs", 5, tString, wk[5])
 	c.add(repeated(field("history", 6, wk[1])))
 	f.msg(c)
+	// a proto3 message holding proto2 messages with required fields (CheckInitialized must look inside)
+	f.dep("google/protobuf/descriptor.proto")
+	p2 := newMsg("."+pkg, "HoldsProto2")
+	p2.add(field("opt", 1, kindSpec{t: tMessage, name: ".google.protobuf.UninterpretedOption"}))
+	p2.add(repeated(field("opts", 2, kindSpec{t: tMessage, name: ".google.protobuf.UninterpretedOption"})))
+	p2.addMap("by_name", 3, tString, kindSpec{t: tMessage, name: ".google.protobuf.UninterpretedOption.NamePart"})
+	p2.add(field("plain", 5, kindSpec{t: tString}))
+	f.msg(p2)
 	return []*Set{simpleSet("wkt", f)}
 }
 
